@@ -41,10 +41,24 @@ type Fill struct {
 type Path struct {
 	Fill Fill     `json:"fill"`
 	Ops  []ops.Op `json:"ops"` // StartPath(0,...) ... ClosePathEndPath
+	// LOD: a level-of-detail range set just before the path (bounds at or next to the height of
+	// the target rectangle, which is what the range is tested against).
+	LOD *[2]ops.F32 `json:"lod,omitempty"`
+}
+
+func (p Path) lod() []ops.Op {
+	if p.LOD == nil {
+		return nil
+	}
+	return []ops.Op{ops.OpSetLOD(float32(p.LOD[0]), float32(p.LOD[1]))}
 }
 
 type Case struct {
 	Relation string `json:"relation"` // offset scale indirection operator
+	// SheetSameSize, SheetNewRenderer (with Sheet): the earlier tile has the size of the target
+	// rectangle; the second tile is drawn by a new Renderer holding the same rasteriser.
+	SheetSameSize    bool `json:"sheet_same_size,omitempty"`
+	SheetNewRenderer bool `json:"sheet_new_renderer,omitempty"`
 	// Window (offset relation): 0 the destination is the whole larger image; 1 a sub-image of it
 	// around the rectangle; 2 a sub-image exactly as wide as the rectangle.
 	Window int `json:"window,omitempty"`
@@ -70,6 +84,7 @@ type Case struct {
 func program(c Case) []ops.Op {
 	var out []ops.Op
 	for _, p := range c.Paths {
+		out = append(out, p.lod()...)
 		out = append(out, p.Fill.Load...)
 		if p.Fill.Gradient {
 			out = append(out, p.Fill.Block...)
@@ -197,6 +212,9 @@ func checkPixels(c Case) error {
 			// an earlier tile with the same Renderer and rasteriser, then the sheet is wiped again
 			var r render.Renderer
 			tile := image.Rect(big.Min.X, big.Min.Y, big.Min.X+5, big.Min.Y+4)
+			if c.SheetSameSize {
+				tile = image.Rect(big.Min.X, big.Min.Y, big.Min.X+c.W, big.Min.Y+c.H) // equal cells
+			}
 			r.SetRasterizer(z, tile)
 			r.Reset(gen.VB(vb), pal)
 			r.StartPath(0, vb[0], vb[1])
@@ -205,9 +223,13 @@ func checkPixels(c Case) error {
 			r.ClosePathEndPath()
 			draw.Draw(img, big, image.NewUniform(prefill), image.Point{}, draw.Src)
 			z.DrawOp = op
-			r.SetRasterizer(z, target)
-			r.Reset(gen.VB(vb), pal)
-			ops.ApplyAll(&r, prog)
+			rp := &r
+			if c.SheetNewRenderer {
+				rp = &render.Renderer{} // a Renderer per icon, one rasteriser for the sheet
+			}
+			rp.SetRasterizer(z, target)
+			rp.Reset(gen.VB(vb), pal)
+			ops.ApplyAll(rp, prog)
 		} else {
 			z.DrawOp = op
 			renderTo(z, target, vb, pal, prog)
@@ -232,6 +254,7 @@ func checkPixels(c Case) error {
 		}
 		var sprog []ops.Op
 		for _, p := range c.Paths {
+			sprog = append(sprog, p.lod()...)
 			sprog = append(sprog, p.Fill.Load...)
 			if p.Fill.Gradient {
 				sprog = append(sprog, scaleOps(p.Fill.Block, c.K, true)...)
@@ -253,6 +276,7 @@ func checkPixels(c Case) error {
 		vm.Reset(pal)
 		var direct []ops.Op
 		for _, p := range c.Paths {
+			direct = append(direct, p.lod()...)
 			for _, o := range p.Fill.Load {
 				vm.Step(o, c.H)
 			}
@@ -442,6 +466,14 @@ func genCase(t *rapid.T) Case {
 		}
 	}
 	c.W, c.H = size("w"), size("h")
+	for i := range c.Paths {
+		if rapid.IntRange(0, 3).Draw(t, "lod") != 0 {
+			continue
+		}
+		h, inf := ops.F32(float32(c.H)), ops.F32(float32(math.Inf(1)))
+		lod := rapid.SampledFrom([][2]ops.F32{{0, h + 1}, {h, inf}, {0, h}, {h + 1, inf}, {0, inf}, {h - 3, h + 40}}).Draw(t, "lodrange")
+		c.Paths[i].LOD = &lod
+	}
 	c.Off = [2]int{rapid.IntRange(0, 40).Draw(t, "ox"), rapid.IntRange(0, 40).Draw(t, "oy")}
 	switch rapid.IntRange(0, 7).Draw(t, "corner") {
 	case 0, 1: // the rectangle starts exactly at the image's own corner
@@ -455,6 +487,8 @@ func genCase(t *rapid.T) Case {
 		c.Origin = [2]int{rapid.IntRange(-30, 30).Draw(t, "iox"), rapid.IntRange(-30, 30).Draw(t, "ioy")}
 	}
 	c.Sheet = rapid.IntRange(0, 2).Draw(t, "sheet") == 0
+	c.SheetSameSize = rapid.Bool().Draw(t, "sheetsame")
+	c.SheetNewRenderer = rapid.Bool().Draw(t, "sheetnewr")
 	c.K = rapid.IntRange(-10, 10).Draw(t, "k")
 	if c.K == 0 {
 		c.K = 3
@@ -502,6 +536,9 @@ func TestPixelRelations(t *testing.T) {
 		for _, p := range c.Paths {
 			if p.Fill.Gradient {
 				labels = append(labels, "gradient-fill")
+			}
+			if p.LOD != nil {
+				labels = append(labels, "level-of-detail-range-around-the-target-height")
 			}
 			if p.Fill.Twice {
 				labels = append(labels, "self-referential-blend-written-twice-in-a-row")
